@@ -556,7 +556,7 @@ func genPrograms(prop, out, tier string, rng *rand.Rand) {
 			for a := 0; a < 3; a++ {
 				for b := 0; b < 3; b++ {
 					for c := -1; c < 3; c++ {
-						for _, ids := range [][3]string{{"cf", "cf", "cf"}, {"cf", "cf2", "cf"}, {"new", "new", "cf"}} {
+						for _, ids := range [][3]string{{"cf", "cf", "cf"}, {"cf", "cf2", "cf"}, {"new", "new", "cf"}, {"new", "new", "new"}, {"cf2", "new", "new"}} {
 							mods := []FMod{{Kind: kinds[a], ID: ids[0], Rule: &GcRule{Kind: "maxversions", N: 1}}, {Kind: kinds[b], ID: ids[1]}}
 							if c >= 0 {
 								mods = append(mods, FMod{Kind: kinds[c], ID: ids[2], Rule: &GcRule{Kind: "maxage", Secs: 9}})
@@ -575,6 +575,114 @@ func genPrograms(prop, out, tier string, rng *rand.Rand) {
 			}
 		}
 		RunTasks(sink, dtasks, progNontrivial)
+	}
+	if prop == "C01" {
+		// directed: DeleteFromColumn over every pair of range bounds from the boundary timestamps (0 =
+		// unbounded on either side, the smallest and the largest valid timestamp included) on a column
+		// holding a cell at each of them
+		t := tname(parentA, "t1")
+		stamps := []int64{0, 1000, 2000, 3000, 9223372036854775000}
+		var sets []Mutation
+		for i, ts := range stamps {
+			sets = append(sets, Mutation{Kind: "set", Fam: "cf", Q: []byte("q"), Ts: ts, V: []byte(fmt.Sprint("v", i))})
+		}
+		var dtasks []Task
+		for _, en := range engines() {
+			for _, lo := range append([]int64{}, stamps...) {
+				for _, hi := range append([]int64{4000}, stamps...) {
+					prog := []Call{{Req: Req{Kind: "create", Parent: parentA, Tid: "t1", Fams: []FamDef{{Name: "cf"}}}, Now: 1000},
+						{Req: Req{Kind: "mutate", Table: t, Key: []byte("r1"), Muts: sets}, Now: 1000},
+						{Req: Req{Kind: "mutate", Table: t, Key: []byte("r1"), Muts: []Mutation{{Kind: "delcol", Fam: "cf", Q: []byte("q"), HasTR: true, S: lo, E: hi}}}, Now: 1000},
+						{Req: Req{Kind: "read", Table: t}, Now: 1000},
+						{Req: Req{Kind: "mutate", Table: t, Key: []byte("r1"), Muts: []Mutation{{Kind: "delcol", Fam: "cf", Q: []byte("q")}}}, Now: 1000},
+						{Req: Req{Kind: "read", Table: t}, Now: 1000}}
+					dtasks = append(dtasks, Task{en, "delete-ranges", prog})
+				}
+			}
+		}
+		RunTasks(sink, dtasks, progNontrivial)
+	}
+	if prop == "C05" {
+		// exhaustive: every leaf of a basis alone (with its boundary arguments), every chain, interleave
+		// and condition of two / three basis leaves, and every chain(interleave(a, b), c) with an
+		// order-sensitive c, on a fixed multi-row, multi-family, multi-column, multi-version table
+		t := tname(parentA, "t1")
+		lit := func(b byte) *Regex { return &Regex{Re: &Re{Kind: "lit", B: int(b)}} }
+		anyStar := &Regex{Re: &Re{Kind: "star", A: &Re{Kind: "any"}}}
+		cl := func(k string) *Bound { return &Bound{Kind: "closed", K: []byte(k)} }
+		op := func(k string) *Bound { return &Bound{Kind: "open", K: []byte(k)} }
+		un := &Bound{Kind: "unset"}
+		basis := []*Filter{
+			{Kind: "pass", Flag: true}, {Kind: "block", Flag: true},
+			{Kind: "rowkey", Rx: &Regex{Re: &Re{Kind: "cat", A: &Re{Kind: "lit", B: 'r'}, C: &Re{Kind: "star", A: &Re{Kind: "any"}}}}},
+			{Kind: "rowkey", Rx: lit('z')},
+			{Kind: "famregex", Rx: &Regex{Re: &Re{Kind: "cat", A: &Re{Kind: "lit", B: 'c'}, C: &Re{Kind: "lit", B: 'f'}}}},
+			{Kind: "qualregex", Rx: lit('a')}, {Kind: "qualregex", Rx: lit('b')}, {Kind: "qualregex", Rx: anyStar},
+			{Kind: "valregex", Rx: &Regex{Re: &Re{Kind: "cat", A: &Re{Kind: "lit", B: 'v'}, C: &Re{Kind: "star", A: &Re{Kind: "any"}}}}}, {Kind: "valregex", Rx: anyStar},
+			{Kind: "colrange", Fam: "cf", S: cl("a"), E: op("b")}, {Kind: "colrange", Fam: "cf", S: op("a"), E: un}, {Kind: "colrange", Fam: "cf2", S: un, E: cl("b")},
+			{Kind: "valrange", S: cl("v1"), E: op("v3")}, {Kind: "valrange", S: un, E: cl("v2")},
+			{Kind: "tsrange", TS: 2000, TE: 3000}, {Kind: "tsrange", TS: 0, TE: 2000}, {Kind: "tsrange", TS: 2000, TE: 0},
+			{Kind: "rowlimit", N: 1}, {Kind: "rowlimit", N: 2}, {Kind: "rowoffset", N: 1}, {Kind: "collimit", N: 1},
+			{Kind: "strip"}, {Kind: "label", Label: "lbl"},
+		}
+		boundary := []*Filter{
+			{Kind: "pass", Flag: false}, {Kind: "block", Flag: false}, {Kind: "rowlimit", N: 0}, {Kind: "rowlimit", N: -1}, {Kind: "rowlimit", N: 100}, {Kind: "rowoffset", N: 0}, {Kind: "rowoffset", N: -1},
+			{Kind: "rowoffset", N: 100}, {Kind: "collimit", N: 0}, {Kind: "collimit", N: -1}, {Kind: "collimit", N: 2}, {Kind: "tsrange", TS: 3000, TE: 2000}, {Kind: "tsrange", TS: 1500, TE: 0}, {Kind: "tsrange", TS: 0, TE: 0},
+			{Kind: "colrange", Fam: "cf", S: cl("b"), E: cl("a")}, {Kind: "colrange", Fam: "cf", S: cl("a"), E: cl("a")}, {Kind: "colrange", Fam: "cf", S: op("a"), E: op("a")}, {Kind: "colrange", Fam: "nope", S: un, E: un},
+			{Kind: "valrange", S: cl("v2"), E: cl("v2")}, {Kind: "valrange", S: op("v2"), E: op("v2")}, {Kind: "valrange", S: cl(""), E: cl("")}, {Kind: "valregex", Rx: &Regex{Bad: true}}, {Kind: "qualregex", Rx: lit('\n')},
+			{Kind: "label", Label: ""}, {Kind: "label", Label: "UPPER"}, {Kind: "sample", Prob: 0}, {Kind: "sample", Prob: 1}, {Kind: "sample", Prob: 0.5},
+			{Kind: "chain", Subs: []*Filter{{Kind: "pass", Flag: true}}}, {Kind: "interleave", Subs: nil},
+		}
+		var filters []*Filter
+		filters = append(filters, basis...)
+		filters = append(filters, boundary...)
+		for _, a := range basis {
+			for _, b := range basis {
+				filters = append(filters, &Filter{Kind: "chain", Subs: []*Filter{a, b}}, &Filter{Kind: "interleave", Subs: []*Filter{a, b}})
+			}
+		}
+		small := []*Filter{basis[0], basis[1], basis[5], basis[22], basis[18]}
+		for _, pf := range basis {
+			for _, tf := range small {
+				for _, ff := range small {
+					filters = append(filters, &Filter{Kind: "condition", P: pf, T: tf, F: ff})
+				}
+			}
+			filters = append(filters, &Filter{Kind: "condition", P: pf, T: basis[0]}, &Filter{Kind: "condition", P: pf, F: basis[0]})
+		}
+		sel := []*Filter{basis[0], basis[5], basis[6], basis[7], basis[8], basis[10], basis[11], basis[13], basis[15], basis[22]}
+		after := []*Filter{basis[18], basis[19], basis[20], basis[21], basis[22]}
+		for _, a := range sel {
+			for _, b := range sel {
+				for _, c := range after {
+					filters = append(filters, &Filter{Kind: "chain", Subs: []*Filter{{Kind: "interleave", Subs: []*Filter{a, b}}, c}})
+				}
+			}
+		}
+		cell := func(f, q string, ts int64, v string) Mutation { return Mutation{Kind: "set", Fam: f, Q: []byte(q), Ts: ts, V: []byte(v)} }
+		setup := []Call{{Req: Req{Kind: "create", Parent: parentA, Tid: "t1", Fams: []FamDef{{Name: "cf"}, {Name: "cf2"}}}, Now: 1000},
+			{Req: Req{Kind: "mutate", Table: t, Key: []byte("r1"), Muts: []Mutation{cell("cf", "a", 1000, "v1"), cell("cf", "a", 2000, "v2"), cell("cf", "a", 3000, "x3"), cell("cf", "b", 2000, "v2"), cell("cf2", "a", 2000, "v3"), cell("cf2", "\x00\xff", 1000, "")}}, Now: 1000},
+			{Req: Req{Kind: "mutate", Table: t, Key: []byte("r2"), Muts: []Mutation{cell("cf", "b", 1000, "v1"), cell("cf", "b", 3000, "v9"), cell("cf", "c", 2000, "w")}}, Now: 1000},
+			{Req: Req{Kind: "mutate", Table: t, Key: []byte("z"), Muts: []Mutation{cell("cf2", "b", 2000, "v2"), cell("cf2", "a", 2000, "line\nbreak")}}, Now: 1000}}
+		var dtasks []Task
+		const perProg = 120
+		for _, en := range engines() {
+			for i := 0; i < len(filters); i += perProg {
+				prog := append([]Call{}, setup...)
+				for j := i; j < i+perProg && j < len(filters); j++ {
+					c := Call{Req: Req{Kind: "read", Table: t, Filter: filters[j]}, Now: 1000}
+					if n := countSamples(filters[j]); n > 0 {
+						for k := 0; k < 8*n; k++ {
+							c.Coins = append(c.Coins, (k+j)%2 == 0)
+						}
+					}
+					prog = append(prog, c)
+				}
+				dtasks = append(dtasks, Task{en, "compositions", prog})
+			}
+		}
+		RunTasks(sink, dtasks, progNontrivial)
+		exhaustive = true
 	}
 	if prop == "C13" {
 		// directed: several rules in one request on columns whose (family, qualifier) pairs are easy to
@@ -711,7 +819,7 @@ func genPrograms(prop, out, tier string, rng *rand.Rand) {
 		exhaustive = true
 	}
 	sink.perFile = 40
-	sink.Close(fmt.Sprintf("(C12/C13 additionally: every interleaving, at the yield points before the table lock and between row fetch and write-back, of a CheckAndMutateRow resp. ReadModifyWriteRow with a second write to the same row, compared step by step with the interleaving model; C13: several rules on confusable columns; C14/C17: things removed and brought back under the same name; C03/C17 additionally: the COMPLETE space of RowSets with at most two ranges plus at most one key, bounds from the 7-key adversarial universe, each bound unset/closed/open, limits {0,2} (thorough {0,1,2,3,7,8}), on a table holding all 7 keys, on all three engines: 50851 range sets x 8 keys x limits per engine, reported as blocks of 1600 range sets) random request programs (focus %s) of about %d requests over %d row keys (byte-prefixes of each other, 0x00/0xff), 3 families + 1 unknown, %d qualifiers incl. empty, boundary timestamps, %d clock values incl. non-millisecond and huge; MutateRow/MutateRows/CheckAndMutateRow/ReadModifyWriteRow/ReadRows with RowSets, filters to depth 3, limits/admin requests/forced GC passes, a full-table read after most writes; every program runs on the btree, in-memory leveldb and on-disk leveldb engines; distinct = distinct canonical (program, observation) text (identical observations on several engines count once); non-trivial = at least one successful write and one non-empty read", prop, length, len(keyUniverse), len(qualifiers), len(clocks)), exhaustive)
+	sink.Close(fmt.Sprintf("(C05 additionally, EXHAUSTIVELY: every leaf of a 24-leaf basis and 31 boundary-argument leaves alone, every chain and interleave of two basis leaves (2 x 576), conditions over predicate x true x false branches (24 x 27), and chain(interleave(a, b), c) for 10 x 10 selectors and 5 order-sensitive leaves, as reads of a fixed 3-row table on all three engines; C12/C13 additionally: every interleaving, at the yield points before the table lock and between row fetch and write-back, of a CheckAndMutateRow resp. ReadModifyWriteRow with a second write to the same row, compared step by step with the interleaving model; C13: several rules on confusable columns; C14/C17: things removed and brought back under the same name; C03/C17 additionally: the COMPLETE space of RowSets with at most two ranges plus at most one key, bounds from the 7-key adversarial universe, each bound unset/closed/open, limits {0,2} (thorough {0,1,2,3,7,8}), on a table holding all 7 keys, on all three engines: 50851 range sets x 8 keys x limits per engine, reported as blocks of 1600 range sets) random request programs (focus %s) of about %d requests over %d row keys (byte-prefixes of each other, 0x00/0xff), 3 families + 1 unknown, %d qualifiers incl. empty, boundary timestamps, %d clock values incl. non-millisecond and huge; MutateRow/MutateRows/CheckAndMutateRow/ReadModifyWriteRow/ReadRows with RowSets, filters to depth 3, limits/admin requests/forced GC passes, a full-table read after most writes; every program runs on the btree, in-memory leveldb and on-disk leveldb engines; distinct = distinct canonical (program, observation) text (identical observations on several engines count once); non-trivial = at least one successful write and one non-empty read", prop, length, len(keyUniverse), len(qualifiers), len(clocks)), exhaustive)
 }
 
 // c16RulePrograms: a family's rule is changed, cleared and restored between writes and forced passes
